@@ -187,7 +187,9 @@ CvProcessPresses(cv, tbl, cign, layer) ==
 
 \* src: chord.rs:245 drain_inputs.  returns [cv, dq]
 CvDrainInputs(cv, dq, tbl, cign, layer) ==
-  IF cv.ign > 0 THEN [cv |-> [cv EXCEPT !.q = <<>>], dq |-> CvSmolExtend(dq, cv.q)]
+  \* src: chord.rs drain_inputs (fix 7d8a52c): ticks_until_next_state_change = 0 - the fast-path counter of an
+  \* earlier attempt does not outlive the queue drained during the min-idle window
+  IF cv.ign > 0 THEN [cv |-> [cv EXCEPT !.q = <<>>, !.tuns = 0], dq |-> CvSmolExtend(dq, cv.q)]
   ELSE IF cv.tuns > 0 /\ cv.pal = layer /\ cv.pql = Len(cv.q)
   THEN [cv |-> [cv EXCEPT !.tuns = CvSatSub(@, 1)], dq |-> dq]
   ELSE LET cv0 == [cv EXCEPT !.tuns = 0, !.pal = layer, !.pql = Len(cv.q)]
